@@ -18,7 +18,7 @@ E == Tr[l]
 Step(k) == l <= Len(Tr) /\ E.e = k /\ l' = l + 1
 
 TReset == /\ Step("Reset")
-          /\ ver' = E.u
+          /\ ver' = E.u /\ dtd' = <<>>
           /\ stack' = <<>> /\ events' = <<>> /\ doc' = <<>> /\ dom' = <<>> /\ err' = FALSE /\ done' = FALSE /\ nelems' = 0
           /\ last' = [a |-> "init", errs |-> {}]
           /\ pend' = <<>> /\ pendEnd' = <<>>
